@@ -154,7 +154,8 @@ def strategy_prefix(res, tier, rng, replay):
         cases = [(c['name'], c['ns'], c['fs'], c['ohlcv'], 'replay')]
     else:
         cases = [c for c in cs.gen_strat_cases(rng, tier, per=(6 if tier == 'quick' else 40)) if len(c[3]['c']) > cs.strat_idle(c[0], c[1]) + 3]
-        for wname in cs.WRAPPED:
+        # compounds whose members emit action streams of different lengths (the Smma / Alligator strategies emit n + 1: C05 finding)
+        for wname in list(cs.WRAPPED) + ['And:Smma+BuyAndHold', 'Or:Alligator+Rsi', 'Majority:Smma+Bop+Rsi']:
             for _ in range(3 if tier == 'quick' else 15):
                 o, regime = gen_ohlcv(rng, rng.randrange(14, 90))
                 cases.append((wname, [], [], o, regime))
@@ -168,6 +169,8 @@ def strategy_prefix(res, tier, rng, replay):
         lines.append('f%d %s' % (i, cs.strat_line(name, ns, fs, o)))
         for j in range(2):
             m = rng.randrange(w + 1, n) if rng.random() < 0.7 else n - 1
+            if j == 1 and rng.random() < 0.3:
+                m = rng.randrange(1, w + 2)         # a prefix that ends inside the warm-up
             po = {k: o[k][:m] for k in o}
             lines.append('f%d_p%d %s' % (i, j, cs.strat_line(name, ns, fs, po)))
             o2, _ = gen_ohlcv(rng, n)
@@ -209,10 +212,14 @@ def strategy_prefix(res, tier, rng, replay):
             if not g.startswith('ok'):
                 continue
             ga = g.split(' | ')[1].split(',')
-            if ga[:m] != fa[:m]:
+            if ga == ['-'] or ga == ['']:
+                ga = []
+            # the first m actions agree, and whatever else the run on the prefix emits (Holds that pad a warm-up longer than the
+            # prefix, the surplus action of the Smma/Alligator finding) is what the whole run has at those places
+            if ga[:m] != fa[:m] or (kind == 'p' and ga != fa[:len(ga)]):
                 bad += 1
                 if bad <= 8:
-                    k = next((t for t in range(m) if t >= len(ga) or t >= len(fa) or ga[t] != fa[t]), 0)
+                    k = next((t for t in range(max(m, len(ga))) if t >= len(ga) or t >= len(fa) or ga[t] != fa[t]), 0)
                     name, ns, fs, o, regime = cases[i]
                     res.violation({'strategy_case': {'name': name, 'ns': ns, 'fs': fs, 'ohlcv': o}, 'cut': m,
                                    'relation': 'run on the first m snapshots' if kind == 'p' else 'snapshots rewritten from m on',
@@ -648,11 +655,14 @@ def c04_pass(res, rng, tier, base, stats, report_corr=True):
         known_len = name in load_findings('C02')           # outputs with a recorded length finding are compared on the common part only
         for k, (of, od) in enumerate(zip(gfull['outs'], gder['outs'])):
             want = min(len(of), max(0, mcut - w))           # outputs that refer to positions < mcut
+            exact_len = True
             if known_len and k == load_findings('C02')[name].get('output', -1):
                 want = min(want, len(od))
+                exact_len = False
             if kind == 'prefix':
-                # the run on the first mcut inputs must be exactly the outputs for positions < mcut (Go vs Go, exact)
-                if len(od) < want or od[:want] != of[:want]:
+                # the run on the first mcut inputs must be exactly the outputs for positions < mcut (Go vs Go, exact): no value
+                # missing, none changed, and none in surplus (a value emitted for a position the prefix does not reach yet)
+                if len(od) < want or od[:want] != of[:want] or (exact_len and len(od) != want):
                     j = next((j for j in range(min(want, len(od))) if od[j] != of[j]), min(want, len(od)))
                     problem = {'output': k, 'index': j, 'cut': mcut, 'declared_idle': w,
                                'prefix_run_outputs': len(od), 'outputs_for_positions_before_cut': want,
